@@ -1,7 +1,7 @@
 (* C02 — Work and memory are bounded by real input size, never by declared sizes (scan part). *)
 From Coq Require Import ZArith List Lia Bool.
 Import ListNotations.
-From LX Require Import Base.ListAux Model.ScanSkel Proofs.ScanSkelProofs Model.Linear Proofs.LinearProofs.
+From LX Require Import Base.ListAux Model.ScanSkel Proofs.ScanSkelProofs Model.Linear Proofs.LinearProofs Model.MixLoop Proofs.MixLoopProofs.
 Local Open Scope Z_scope.
 
 (* Whatever the patterns contain - any jumps, breaks, loops, delays, self-referential or not: the skeleton makes no
@@ -30,6 +30,16 @@ Proof.
   - cbn [length]. unfold len, zlen in *. lia.
 Qed.
 Print Assumptions linear_scan_terminates.
+
+(* the mixer's per-voice inner loop makes at most 2 * ticksize iterations per tick, whatever the pitch, the loop
+   geometry and the rounding of positions do (hook H5 counts the real iterations against maxvoc * 2 * ticksize) *)
+Theorem mixer_inner_loop_bounded : forall ticksize evs s', 1 <= ticksize ->
+  mrun (mstart ticksize) evs = Some s' -> Z.of_nat (length evs) <= 2 * ticksize.
+Proof.
+  intros T evs s' HT H. pose proof (mrun_bounded evs (mstart T) s' H) as B. cbn [mstart m_size m_usmp m_out] in B.
+  assert (Z.of_nat (length evs) <= T + Z.max 0 T) by (apply B; [lia|intros _; lia]). lia.
+Qed.
+Print Assumptions mixer_inner_loop_bounded.
 
 (* non-vacuity: three cells; a loop over cell 1 until its counter wraps is a legal trace and is within the bound *)
 Example c02_nonvacuous :
